@@ -122,6 +122,22 @@ Fixpoint run (ops : list op) (st : state) : list ev * list sample * state :=
       (e ++ es, s ++ ss, stf)
   end.
 
+(* adaptive run: the next instruction is an arbitrary function D of everything that has happened so far
+   (the events carry the positions, and the value of a variate is a function of its position), i.e. the
+   sampler's decisions, the allocation, the number of levels and passes are all left open *)
+Fixpoint arun (fuel : nat) (D : list ev -> option op) (st : state) (hist : list ev) : list ev * list sample :=
+  match fuel with
+  | O => (hist, [])
+  | S f =>
+      match D hist with
+      | None => (hist, [])
+      | Some o =>
+          let '(st', (e, s)) := step st o in
+          let '(h, ss) := arun f D st' (hist ++ e) in
+          (h, s ++ ss)
+      end
+  end.
+
 Definition events (ops : list op) (st : state) : list ev := fst (fst (run ops st)).
 Definition samples (ops : list op) (st : state) : list sample := snd (fst (run ops st)).
 Definition final (ops : list op) (st : state) : state := snd (run ops st).
